@@ -4,5 +4,10 @@ CONSTANTS
   PairClasses = {"zero", "neg1", "huge"}
   PairTails = {"mpd"}
   PatchClasses = {"zero", "neg1", "huge", "nonnum", "typical"}
-  LLTails = {"mpd", "vnum", "anum"}
+  LLTails = {"mpd", "vnum", "anum", "num_huge"}
+  EarlyClasses = {"zero", "neg1", "one", "typical", "huge"}
+  EarlyPairClasses = {"typical"}
+  EarlyTails = {"mpd", "anum"}
+  TripleClasses = {"zero", "neg1", "one", "typical", "huge"}
+  TripleTails = {"mpd", "anum"}
 INVARIANTS TypeOK Sane Emit
